@@ -67,6 +67,9 @@ func c10Check(res *vh.Result, cfg *icCfg) func(r *icRun, x *vrt.Sched, cost int)
 				}
 			}
 		}
+		if len(r.leakedAtIdle) > 0 {
+			viol("goroutine-leak", "after-close-returned:"+strings.Join(c10Names(r.leakedAtIdle), ","), fmt.Sprintf("store goroutines still alive after Close returned and every client call finished: %v", r.leakedAtIdle))
+		}
 		if len(r.leaked) > 0 {
 			viol("goroutine-leak", strings.Join(c10Names(r.leaked), ","), fmt.Sprintf("store goroutines still alive after Close: %v", r.leaked))
 		}
@@ -116,8 +119,8 @@ func c10Drivers() []*icCfg {
 	W := icOp{Kind: "wait"}
 	q1 := hOpts{MaxSize: 10, ChanSize: 1, BufSize: 1}
 	q2 := hOpts{MaxSize: 10, ChanSize: 2, BufSize: 2}
-	epi := []icOp{G(1), S(3), D(1), {Kind: "len"}, {Kind: "range"}, W}
-	epiL := []icOp{G(1), S(3), L(1), {Kind: "len"}, W}
+	epi := []icOp{{Kind: "est"}, G(1), S(3), D(1), {Kind: "len"}, {Kind: "range"}, W}
+	epiL := []icOp{{Kind: "est"}, G(1), S(3), L(1), {Kind: "len"}, W}
 	return []*icCfg{
 		{Name: "D1-writers-full-queue", O: q1, Scripts: [][]icOp{{S(1), S(2)}, {S(3)}, {C}}, Post: epi},
 		{Name: "D1b-three-writers", O: q1, Scripts: [][]icOp{{S(1)}, {S(2)}, {S(3)}, {C}}, Post: epi},
